@@ -85,6 +85,22 @@ PROPS.update({
     },
 })
 
+_SCALAR_HARNESSES = ["h_scalars::proofs::scalar_u", "h_scalars::proofs::scalar_i", "h_scalars::proofs::scalar_nz", "h_scalars::proofs::scalar_f",
+                     "h_scalars::proofs::scalar_bool", "h_scalars::proofs::scalar_unit", "h_scalars::proofs::scalar_string_kinds", "h_scalars::proofs::scalar_char_"]
+PROPS["C05"] = {
+    "title": "Scalars accept exactly the representable values, exactly, and say why not",
+    "level": "proof",
+    "technique": "Kani/CBMC on the real compiled macro instances: one loop-free harness per scalar type over every payload kind with full-domain symbolic u64 / i64 / f64 (complete, not bounded); contract = assume-nothing / assert-postcondition around the real function",
+    "design_ref": "DESIGN.md §4 C05",
+    "units": [{"kind": "kani", "group": "scalars", "filters": _SCALAR_HARNESSES, "need_stub": True, "timeout": 1200,
+               "assumptions": ["alloc::fmt::format is stubbed (message text of the domain error is not inspected; only its kind, location and multiplicity)",
+                               "usize/isize are 64-bit (x86_64)",
+                               "String contents are proved in the Verus unit (represents: the result is the payload string); char contents beyond the empty string (str::chars / count under CBMC ran > 20 min per string) are NOT decided here; the kind part of both is full-domain"]}],
+    "text": "For each of the 24 integer / NonZero types, f32, f64, bool, (), and the kind part of String/char, a Kani harness gives the real `deserialize_from_value` a payload of any kind whose number is a fully symbolic u64 / i64 / f64 and asserts the postcondition taken from the statement: Ok(v) iff kind admissible and value in [MIN, MAX] (non-zero for NonZero) and then v == value in 128-bit arithmetic (floats: bit-equal to the IEEE conversion, and integers <= 2^53 / 2^24 convert back exactly); otherwise exactly one report, at the given location, IncorrectValueKind with exactly the admissible kinds as a set (and the actual kind found) when the kind is wrong, Unexpected when only the domain is wrong. Loop-free over the full domain => complete.",
+    "level_note": "Complete for numbers/bool/unit/kinds (no unwinding bound is hit: unwinding assertions are on). Message wording and multi-character string contents are not decided here.",
+    "assumptions": [],
+}
+
 NOT_APPLICABLE = {
     "C20": "HTTP extractors are three-line async compositions of actix-web/axum extractors with deserr::deserialize; neither installed verifier can run or specify the frameworks (futures, pinning, runtime), so every obligation would be an assumed contract on actix/axum with nothing left to prove; the features are off by default and not compiled in the baseline.",
 }
